@@ -307,7 +307,7 @@ fn live_processes(rep: &mut Report) {
 }
 
 pub fn run(ctx: &Ctx, rep: &mut Report) {
-    rep.rule = "SEQ over map texts: all maps of <= depth lines over the pruned line alphabet (gap x size x perms x offset-class x name), each x every vDSO address (none, start of each line, inside a line), through the real procfs parser + MappingInfo::aggregate; plus /proc/<pid>/maps of every live process. nontrivial = maps in which at least one merge happened".into();
+    rep.rule = "SEQ over map texts: all maps of <= depth lines (quick: 3 over the full 56-letter alphabet, 4 over 44 letters, 5 over 16; thorough: 4 over the full alphabet, 6 over 16 letters) over the pruned line alphabet (gap x size x perms x offset-class x name), each x every vDSO address (none, start of each line, inside a line), through the real procfs parser + MappingInfo::aggregate; plus /proc/<pid>/maps of every live process. nontrivial = maps in which at least one merge happened".into();
     rep.assume("procfs-core's maps parser is part of the path under test (the crate uses it); the oracle uses its own line parser");
     if let Some(case) = &ctx.replay {
         let text = case.get("maps").and_then(|m| m.as_str()).unwrap_or("").to_string();
@@ -339,8 +339,7 @@ pub fn run(ctx: &Ctx, rep: &mut Report) {
     let small = alphabet(2);
     if ctx.tier.is_thorough() {
         explore(&full, 4, rep, "full");
-        explore(&medium, 5, rep, "medium");
-        explore(&small, 7, rep, "small");
+        explore(&small, 6, rep, "small");
     } else {
         explore(&full, 3, rep, "full");
         explore(&medium, 4, rep, "medium");
